@@ -28,6 +28,8 @@ def run(ctx):
     depth = 4 if ctx.quick else 5
     subs = ctx.mine(meshdrive.bfs_subtrees())
     meshdrive.bfs(ctx, 'C02', depth, subs)
+    for case in ctx.mine(meshdrive.deep_family()):
+        meshdrive.run_history(case, ctx.rec, 'C02', cap=2000)
     n = ctx.share(1600 if ctx.quick else 8000)
     strat = meshdrive.history_cases(max_ops=30 if ctx.quick else 60,
                                     allow=('t', 'x', 'tx', 'unif', 'unifx', 'iso', 'aniso', 'grade'))
